@@ -25,6 +25,7 @@ def run(pid, tier):
     S.free_running(chk, col, bindir, tier)
     S.stray_wake(chk, col, bindir, tier)
     S.directed_stray(chk, col, bindir, tier)
+    S.panic_kinds(chk, col, bindir, tier)
     S.explore_handshake(chk, col, bindir, tier)
     S.drop_race(chk, col, bindir, tier)
     S.faults(chk, col, bindir, tier)
@@ -38,6 +39,7 @@ def run(pid, tier):
         S.free_running(chk, col, rb, "quick", release=True, tag="-release")
         S.stray_wake(chk, col, rb, "quick", release=True, tag="-release")
         S.directed_stray(chk, col, rb, "quick", release=True, tag="-release")
+        S.panic_kinds(chk, col, rb, "quick", release=True, tag="-release")
         S.explore_handshake(chk, col, rb, "quick", release=True, tag="-release")
         S.drop_race(chk, col, rb, tier, release=True, tag="-release")
         S.faults(chk, col, rb, "quick", release=True, tag="-release")
